@@ -177,3 +177,162 @@ def class_catalogue():
                 g["tags"] = sorted(set(tags))
                 out.append(g)
     return out
+
+
+# ------------------------------------------------------------------ C05: state store
+
+def state_catalogue():
+    out = []
+    def obs(key="k", m=0):
+        return andcode(p_state(key, m))
+    def g(name, x, extra_rules=(), tags=()):
+        # S tries X then 'c'; on failure X then 'd'; then observes the store
+        rules = [rule("S", choice(
+            act(seq(x(), lit("c"), obs("k", 0)), b_rec("s1")),
+            act(seq(x(), lit("d"), obs("k", 1)), b_rec("s2")),
+            act(seq(star(cls(ranges=[("a", "d")])), choice(obs("k", 0), obs("k", 1))), b_rec("s3"))))]
+        rules += list(extra_rules)
+        out.append(grammar("st_" + name, rules, tags=list(tags)))
+    inc = lambda: state(s_inc("k"))
+    box = lambda: state(s_box("k"))
+    for nm, st in (("inc", inc), ("box", box)):
+        g(nm + "_first", lambda: seq(st(), lit("a"), lit("b")))
+        g(nm + "_mid", lambda: seq(lit("a"), st(), lit("b")))
+        g(nm + "_last", lambda: seq(lit("a"), lit("b"), st()))
+        g(nm + "_star", lambda: star(seq(lit("a"), st())))
+        g(nm + "_star2", lambda: star(seq(st(), lit("a"))))
+        g(nm + "_plus", lambda: plus(seq(st(), lit("a"), opt(lit("b")))))
+        g(nm + "_opt", lambda: opt(seq(lit("a"), st(), lit("b"))))
+        g(nm + "_and", lambda: seq(and_(seq(lit("a"), st())), lit("a")))
+        g(nm + "_not", lambda: seq(not_(seq(lit("a"), st(), lit("b"))), lit("a")))
+        g(nm + "_cho", lambda: choice(seq(st(), lit("a"), lit("b")), seq(st(), st(), lit("a"))))
+        g(nm + "_nest", lambda: seq(st(), choice(seq(lit("a"), st(), lit("b")), lit("a")), st()))
+        g(nm + "_rule", lambda: seq(ref("Y"), lit("b")), extra_rules=[rule("Y", seq(lit("a"), st()))])
+        g(nm + "_lbl", lambda: seq(label("q", seq(lit("a"), st())), lit("b")))
+    g("set", lambda: seq(state(s_set("k", 3)), lit("a"), state(s_inc("k"))))
+    g("amut", lambda: seq(act(lit("a"), b_amut("k")), state(s_inc("k")), lit("b")))
+    g("pmut", lambda: seq(andcode(p_mut("k")), lit("a"), state(s_inc("k"))))
+    g("nmut", lambda: seq(notcode({"bk": "PConst", "tag": "pn", "args": [], "val": 0}), state(s_inc("k")), lit("a")))
+    g("twokeys", lambda: seq(state(s_inc("k")), lit("a"), state(s_inc("j")), andcode(p_state("j", 1)), lit("b")))
+    g("ginc", lambda: seq(act(lit("a"), b_ginc("gk")), state(s_inc("k")), lit("b")))
+    g("actstate", lambda: act(seq(lit("a"), state(s_inc("k"))), b_rec("inner")))
+    return out
+
+
+# ------------------------------------------------------------------ C14: throw / recover
+
+def throw_catalogue():
+    out = []
+    def g(name, rules, tags=()):
+        out.append(grammar("tr_" + name, rules, tags=list(tags)))
+    rec = lambda tag: b_rec(tag)
+    # basic: throw inside guarded sequence; recovery consumes
+    g("basic", [rule("S", act(label("x", recover(seq(lit("a"), choice(lit("b"), throw("l1"))), ["l1"], act(cls(ranges=[("c", "d")]), rec("r1")))), rec("s")))])
+    # throw without handler: plain failure, backtracking resumes
+    g("nohandler", [rule("S", choice(act(seq(lit("a"), throw("l1")), rec("s1")), act(seq(lit("a"), any_()), rec("s2"))))])
+    # two labels, one handler each
+    g("twolabels", [rule("S", act(label("x", recover(recover(seq(lit("a"), choice(lit("b"), throw("l1")), choice(lit("c"), throw("l2"))), ["l1"], act(lit("d"), rec("r1"))), ["l2"], act(lit("d"), rec("r2")))), rec("s")))])
+    # shared label at two depths: innermost first, then outer
+    g("shared", [rule("S", act(label("x", recover(seq(lit("a"), recover(seq(lit("b"), throw("l1")), ["l1"], act(lit("c"), rec("inner")))), ["l1"], act(lit("d"), rec("outer")))), rec("s")))])
+    # handler listing several labels
+    g("multi", [rule("S", act(label("x", recover(seq(choice(lit("a"), throw("l1")), choice(lit("b"), throw("l2"))), ["l1", "l2"], act(any_(), rec("r")))), rec("s")))])
+    # throw in a called rule
+    g("called", [rule("S", act(label("x", recover(seq(lit("a"), ref("T")), ["l1"], act(lit("d"), rec("r")))), rec("s"))),
+                 rule("T", choice(lit("b"), throw("l1")))])
+    # throw inside repetition
+    g("instar", [rule("S", act(label("x", recover(star(seq(lit("a"), choice(lit("b"), throw("l1")))), ["l1"], act(lit("c"), rec("r")))), rec("s")))])
+    # throw inside predicates
+    g("inand", [rule("S", act(label("x", recover(seq(and_(seq(lit("a"), throw("l1"))), any_(), any_()), ["l1"], act(lit("b"), rec("r")))), rec("s")))])
+    g("innot", [rule("S", act(label("x", recover(seq(not_(seq(lit("a"), throw("l1"))), any_()), ["l1"], act(lit("b"), rec("r")))), rec("s")))])
+    # recovery expression that fails -> next outer
+    g("recfails", [rule("S", act(label("x", recover(recover(seq(lit("a"), throw("l1")), ["l1"], lit("b")), ["l1"], act(lit("c"), rec("outer")))), rec("s")))])
+    # recovery expression that throws another label
+    g("recthrows", [rule("S", act(label("x", recover(recover(seq(lit("a"), throw("l1")), ["l1"], seq(lit("b"), throw("l2"))), ["l2"], act(lit("c"), rec("r2")))), rec("s")))])
+    # handler left by backtracking, then same label thrown outside of it
+    g("left", [rule("S", choice(act(seq(recover(seq(lit("a"), lit("b")), ["l1"], lit("z")), lit("c")), rec("s1")),
+                                 act(seq(lit("a"), choice(lit("d"), throw("l1"))), rec("s2")),
+                                 act(any_(), rec("s3"))))])
+    # handler in force only while the guarded expression runs (throw after it)
+    g("after", [rule("S", choice(act(seq(recover(lit("a"), ["l1"], act(lit("b"), rec("r"))), throw("l1")), rec("s1")), act(star(any_()), rec("s2"))))])
+    # throw under choice alternatives with state of labels
+    g("labels", [rule("S", act(seq(label("x", lit("a")), label("y", recover(choice(lit("b"), throw("l1")), ["l1"], act(label("z", any_()), rec("r"))))), rec("s")))])
+    return out
+
+
+# ------------------------------------------------------------------ C11: faults
+
+def fault_catalogue():
+    out = []
+    def g(name, rules, slots):
+        out.append(grammar("fl_" + name, rules, fault_slots=slots))
+    g("seq", [rule("S", act(seq(label("x", act(lit("a"), b_fault(0, "f0"))), label("y", opt(act(lit("b"), b_fault(1, "f1"))))), b_rec("s")))], 2)
+    g("choice", [rule("S", choice(act(seq(act(lit("a"), b_fault(0, "f0")), lit("c")), b_rec("s1")), act(seq(act(lit("a"), b_fault(1, "f1")), lit("d")), b_rec("s2")), act(any_(), b_fault(2, "f2"))))], 3)
+    g("star", [rule("S", act(label("x", star(act(cls(ranges=[("a", "b")]), b_fault(0, "f0")))), b_rec("s")))], 1)
+    g("pred", [rule("S", act(seq(andcode(p_fault(0, "pf0")), label("x", lit("a")), notcode(p_const(False, "pn")), opt(lit("b"))), b_rec("s")))], 1)
+    g("display", [rule("S", act(seq(label("x", ref("Item")), opt(ref("Item"))), b_rec("s")), display="start"),
+                  rule("Item", act(cls(ranges=[("a", "b")]), b_fault(0, "f0")), display="item")], 1)
+    g("nested", [rule("S", act(seq(label("x", ref("A")), label("y", ref("B"))), b_fault(0, "f0"))),
+                 rule("A", act(lit("a"), b_fault(1, "f1"))),
+                 rule("B", choice(act(lit("b"), b_fault(2, "f2")), act(lit("a"), b_rec("b2"))))], 3)
+    g("and", [rule("S", act(seq(and_(act(lit("a"), b_fault(0, "f0"))), label("x", any_()), opt(any_())), b_rec("s")))], 1)
+    g("newline", [rule("S", act(seq(star(lit("\n")), label("x", act(lit("a"), b_fault(0, "f0"))), opt(lit("\n")), opt(act(lit("b"), b_fault(1, "f1")))), b_rec("s")))], 2)
+    return out
+
+
+# ------------------------------------------------------------------ C12: farthest failure
+
+def fail_catalogue():
+    out = []
+    def g(name, rules):
+        out.append(grammar("ff_" + name, rules))
+    g("alts", [rule("S", act(seq(choice(seq(lit("a"), lit("b")), seq(lit("a"), lit("c")), lit("d")), not_(any_())), b_rec("s")))])
+    g("samepos", [rule("S", act(seq(lit("a"), choice(lit("b"), cls(ranges=[("c", "d")]), seq(lit("b"), lit("b")))), b_rec("s")))])
+    g("notnot", [rule("S", act(seq(not_(not_(lit("a"))), any_(), not_(lit("b")), opt(any_())), b_rec("s")))])
+    g("notseq", [rule("S", act(seq(not_(seq(lit("a"), lit("b"))), any_(), any_(), not_(any_())), b_rec("s")))])
+    g("andpred", [rule("S", act(seq(and_(seq(any_(), lit("b"))), lit("a"), any_(), not_(any_())), b_rec("s")))])
+    g("star", [rule("S", act(seq(star(lit("a")), lit("b"), not_(any_())), b_rec("s")))])
+    g("icase", [rule("S", act(seq(lit("aB", i=True), cls(chars="cd", i=True), not_(any_())), b_rec("s")))])
+    g("rules", [rule("S", act(seq(ref("A"), ref("B"), not_(any_())), b_rec("s"))),
+                rule("A", choice(lit("ab"), lit("a"))), rule("B", choice(lit("c"), lit("b")), display="bee")])
+    g("dup", [rule("S", act(seq(choice(seq(lit("a"), lit("b")), seq(lit("a"), lit("b"), lit("c"))), lit("d")), b_rec("s")))])
+    g("invcls", [rule("S", act(seq(cls(chars="a", inv=True), cls(chars="b", inv=True), not_(any_())), b_rec("s")))])
+    g("newline", [rule("S", act(seq(star(lit("\n")), lit("a"), lit("\n"), lit("b")), b_rec("s")))])
+    return out
+
+
+# ------------------------------------------------------------------ C02: labels / context
+
+def context_catalogue():
+    out = []
+    def g(name, rules):
+        out.append(grammar("cx_" + name, rules))
+    g("basic", [rule("S", act(seq(label("a", lit("a")), label("b", opt(lit("\n"))), label("d", star(cls(ranges=[("a", "b")])))), b_rec("s")))])
+    g("nested", [rule("S", act(seq(label("a", act(seq(label("x", lit("a")), label("y", opt(lit("b")))), b_rec("in"))), label("b", star(act(label("z", any_()), b_rec("it"))))), b_rec("s")))])
+    g("shadow", [rule("S", act(seq(label("a", lit("a")), label("b", choice(act(label("a", lit("b")), b_rec("alt1")), act(label("a", any_()), b_rec("alt2"))))), b_rec("s")))])
+    g("abandoned", [rule("S", choice(act(seq(label("a", act(lit("a"), b_rec("tried"))), lit("b"), lit("z")), b_rec("s1")), act(seq(label("a", act(any_(), b_rec("second"))), label("b", star(any_()))), b_rec("s2"))))])
+    g("pred", [rule("S", act(seq(label("a", cls(ranges=[("a", "b")])), andcode(p_lab("a", "a")), label("b", opt(any_()))), b_rec("s")))])
+    g("npred", [rule("S", act(seq(label("a", any_()), notcode(p_lab("a", "b")), label("b", star(any_()))), b_rec("s")))])
+    g("multiline", [rule("S", act(label("ls", star(ref("L"))), b_rec("s"))), rule("L", act(seq(label("t", star(cls(chars="\n", inv=True))), lit("\n")), b_rec("line")))])
+    g("unicode", [rule("S", act(seq(label("a", star(lit("é"))), label("b", act(opt(cls(ranges=[("a", "b")])), b_rec("tail")))), b_rec("s")))])
+    g("inpred", [rule("S", act(seq(and_(act(label("p", any_()), b_rec("look"))), label("a", any_()), not_(act(label("q", lit("b")), b_rec("neg")))), b_rec("s")))])
+    g("rules", [rule("S", act(seq(label("a", ref("A")), label("b", ref("A"))), b_rec("s"))), rule("A", act(label("v", cls(ranges=[("a", "b")])), b_rec("A")))])
+    g("predctx", [rule("S", act(seq(label("a", ref("B")), lit("c"), andcode(p_const(True, "pt")), state(s_inc("k")), opt(lit("d"))), b_rec("s"))), rule("B", act(lit("ab"), b_rec("B")))])
+    return out
+
+
+# ------------------------------------------------------------------ C17: invalid UTF-8
+
+def utf8_catalogue():
+    out = []
+    def g(name, rules):
+        out.append(grammar("u8_" + name, rules))
+    g("anystar", [rule("S", act(label("x", star(any_())), b_rec("s")))])
+    g("anyeof", [rule("S", act(seq(label("x", star(any_())), not_(any_())), b_rec("s")))])
+    g("fffdcls", [rule("S", act(seq(label("x", star(cls(chars="�"))), label("y", opt(any_()))), b_rec("s")))])
+    g("nfffd", [rule("S", act(seq(label("x", star(cls(chars="�", inv=True))), label("y", opt(any_()))), b_rec("s")))])
+    g("nota", [rule("S", act(label("x", star(cls(chars="a", inv=True))), b_rec("s")))])
+    g("mixed", [rule("S", act(seq(label("x", lit("a")), label("y", star(choice(lit("é"), cls(ranges=[("a", "b")])))), label("z", opt(any_()))), b_rec("s")))])
+    g("lookahead", [rule("S", act(seq(and_(any_()), not_(lit("b")), label("x", any_()), label("y", opt(any_()))), b_rec("s")))])
+    g("fffdlit", [rule("S", act(seq(label("x", opt(lit("a�"))), label("y", star(any_()))), b_rec("s")))], )
+    g("twice", [rule("S", choice(act(seq(any_(), any_(), lit("z")), b_rec("s1")), act(seq(label("x", any_()), label("y", opt(any_()))), b_rec("s2"))))])
+    return out
